@@ -1,8 +1,28 @@
 import Driver.Store2
+import NixModel.Store.CopyFrames
+open Lean Nix.Store
 
 namespace Driver.C20
 
-/-- C20 is decided on the structural (HDF5 graph) model: same driver for C02 C03 C04 C05 C12 C20 -/
-def main : IO Unit := Driver.Store2.main
+/-- C20 is decided on the structural (HDF5 graph) model with copies (`Driver.Store2`, shared with C02),
+extended by the two data-frame operations only C20's histories use (`Store/CopyFrames.lean`): creation,
+and `create_data_frame(copy_from=…)` — the latter executed from the *generated* entry-point shape -/
+def step (s : Driver.Store2.St) (j : Json) : Driver.Store2.St × Json :=
+  match (Driver.jArr j).toList with
+  | [.str "create_frame", pj, nm, .str ty] =>
+    match Driver.Store.parsePath pj, Driver.Store.parseName s.g nm with
+    | some p, some name => Driver.Store2.applyS s (createDataFrame s.g p name ty)
+    | _, _ => (s, Driver.bad "args")
+  | [.str "copy_into", dp, .str "data_frame", sf, sp, .str name, .bool keep] =>
+    match Driver.jInt? sf, Driver.Store.parsePath dp with
+    | some sfi, some dpath =>
+      let src := s.files[sfi.toNat]?.getD {}
+      match Driver.Store.resolveKey src sp with
+      | some k => Driver.Store2.applyS s (copyFrameIntoBlock src s.g dpath k name keep)
+      | none => (s, Driver.bad "source path")
+    | _, _ => (s, Driver.bad "args")
+  | _ => Driver.Store2.step s j
+
+def main : IO Unit := Driver.loop ({} : Driver.Store2.St) step
 
 end Driver.C20
